@@ -208,6 +208,29 @@ def transform(txt, cls, tag, ktable):
     return out
 
 
+def sha1_macros(txt):
+    """SHA1_ROL, the index / value of the in-place schedule update SHA1_BLK, and the five round macros (z += ...; w = ROL(w,30)) with the
+    schedule word abstracted to `wi` (R0 reads block[i], R1..R4 use SHA1_BLK(i))."""
+    out = ["Module S1."]
+    out.extend(macros(txt, ["SHA1_ROL"]))
+    m = re.search(r"^[ \t]*#define[ \t]+SHA1_BLK\(i\)[ \t]+\(\s*block\[([^\]]*)\]\s*=\s*(.*)\)\s*$", txt, flags=re.M)
+    if not m: raise TranslateError("SHA1_BLK is not of the form (block[idx] = value)")
+    env = {"i": "i_", "block": "block"}
+    out.append("Definition src_SHA1_BLK_index (W i_ : N) : N := %s." % expr(m.group(1), env))
+    out.append("Definition src_SHA1_BLK_value (W : N) (block : list N) (i_ : N) : N := %s." % expr(m.group(2), env))
+    for r in range(5):
+        m = re.search(r"^[ \t]*#define[ \t]+SHA1_R%d\(v,w,x,y,z,i\)[ \t]+z\s*\+=(.*?);\s*w\s*=(.*?);\s*$" % r, txt, flags=re.M)
+        if not m: raise TranslateError("SHA1_R%d is not of the form `z += E; w = E';`" % r)
+        e = m.group(1)
+        word = r"block\[i\]" if r == 0 else r"SHA1_BLK\(i\)"
+        if len(re.findall(word, e)) != 1: raise TranslateError("SHA1_R%d: schedule word %s not used exactly once" % (r, word))
+        e = re.sub(word, "wi", e)
+        env = dict((p, p + "_") for p in "vwxyz"); env["wi"] = "wi"
+        out.append("Definition src_SHA1_R%d (W v_ w_ x_ y_ z_ wi : N) : N * N := ((wadd W z_ %s), %s)." % (r, expr(e, env), expr(m.group(2), env)))
+    out.append("End S1.")
+    return out
+
+
 def cstring_after(txt, anchor_re, count):
     out = []
     for m in re.finditer(anchor_re, txt):
@@ -242,6 +265,7 @@ def generate(repo):
         if not m: raise TranslateError("SHA1_R%d constant not found" % r)
         ks.append("0x" + m.group(1)[2:].lower())
     out.append("Definition src_sha1_k : list N := [%s]." % "; ".join(ks))
+    out.extend(sha1_macros(txt))
     enc = open(os.path.join(repo, "src", "encoding.cpp"), errors="replace").read()
     b64 = cstring_after(enc, r'"(ABCDEFGHIJKLMNOPQRSTUVWXYZabcdefghijklmnopqrstuvwxyz[^"]*)"', 2)
     out.append("Definition src_b64_std : list N := %s." % coq_bytes(b64[0]))
